@@ -61,6 +61,9 @@ def main():
             else:
                 print("REPLAY ERROR (in the harness, not counted): %s: %s" % (type(e).__name__, e))
                 sys.exit(2)
+        msg = str(msg)
+        if len(msg) > 3000:
+            msg = msg[:3000] + " ...[%d more characters]" % (len(msg) - 3000)
         print(("REPRODUCED: " if ok else "NOT REPRODUCED: ") + msg)
         sys.exit(1 if ok else 0)
     sys.exit(mod.main(tier))
